@@ -83,6 +83,17 @@ def all_jobs():
     J.append(dict(id='stmt_for_doit', src='blocc/statement_for.cpp', contract='stmt_for.c', enforce=mg, roots=[mg], replace=[VCALL_VALUE] + CTX_STUBS,
                   cut=[VCALL_VALUE, RTE_CTOR, RTE_CTOR_S] + CTX_STUBS, props=['C01', 'C06'], pretty='bloc::FORStatement::doit', canaries=['normal', 'exceptional'],
                   structs=DEFAULT_STRUCTS + ['bloc::Symbol', 'bloc::Context', 'bloc::Executable']))
+    mg = '_ZNK4bloc14WHILEStatement4doitERNS_7ContextE'
+    J.append(dict(id='stmt_while_doit', src='blocc/statement_while.cpp', contract='stmt_while.c', enforce=mg, roots=[mg], replace=[VCALL_VALUE] + CTX_STUBS,
+                  cut=[VCALL_VALUE, RTE_CTOR, RTE_CTOR_S] + CTX_STUBS, props=['C01', 'C04', 'C05', 'C06'], pretty='bloc::WHILEStatement::doit', canaries=['normal', 'exceptional'],
+                  structs=DEFAULT_STRUCTS + ['bloc::Symbol', 'bloc::Context', 'bloc::Executable']))
+    mg = '_ZNK4bloc11IFStatement4doitERNS_7ContextE'
+    RUN = '_ZN4bloc10Executable3runERNS_7ContextERKNSt7__cxx114listIPKNS_9StatementESaIS7_EEE'
+    J.append(dict(id='stmt_if_doit', src='blocc/statement_if.cpp', contract='stmt_if.c', enforce=mg, roots=[mg], replace=[VCALL_VALUE, RUN],
+                  cut=[VCALL_VALUE, RTE_CTOR, RTE_CTOR_S, RUN], props=['C01', 'C04', 'C06'], pretty='bloc::IFStatement::doit', canaries=['normal', 'exceptional'],
+                  unwind=5, unwind_why='iteration over the rule list, modelled by an array of at most 3 rules (if / elsif / else chains of at most 3 rules)', bounded_inputs=True,
+                  transparent=['std::pair<bloc::Expression*, bloc::Executable*>'],
+                  structs=DEFAULT_STRUCTS + ['bloc::Symbol', 'bloc::Context', 'bloc::Executable']))
     return J
 
 def known_findings():
